@@ -6,7 +6,7 @@ COQ_FILES = ["Response.v", "ResponseProofs.v", "ResponseExec.v", "PropsRegistry.
 THEOREMS = ["C11_correlated", "C11_error_only_after_deadline", "C11_unregistered_after_result",
             "C11_unregistered_by_the_return_step", "C11_late_reply_dead_letters", "C11_at_most_one_result",
             "C11_distinct_ids_needed", "C11_respond_never_blocks", "C11_respond_total",
-            "C11_respond_never_blocks_refuted_before_D16"]
+            "C11_respond_never_blocks_refuted_before_D16", "C11_result_waits_at_most_timeout_in_logical_time", "C11_urgent_step_enabled"]
 RULE = ("1-32 concurrent requester goroutines (distinct payloads) on a real engine against scripted responder actors that call "
         "Context.Respond 0/1/2/3 times - on receipt, after half the 100 ms timeout, after twice the timeout, or (logical lateness) "
         "after the requester's Result() has returned - to the same or to different responders, plus requests fanned out to up to 3 "
